@@ -454,6 +454,60 @@ namespace {
    }
 }
 
+namespace {
+   // Sizes.  Whatever the library does at a particular member count (a slab that is exactly full, a table that has just doubled)
+   // it must give back: for EVERY n up to the bound, a Lexicon that holds exactly n members of each kind of unified or owned
+   // thing -- names declared in a scope, redeclarations, warehouse products and sums, identifiers, pointer types, literals,
+   // parameters, enumerators, handlers, sub-regions, expression-list members -- is built and destroyed; the balance must be zero.
+   void size_sweep(int upto)
+   {
+      for (int n = 1; n <= upto; ++n) {
+         if (not opt.mine(n)) continue;
+         current_history.clear();
+         vf::env::track_pointers(true);
+         const auto before = vf::env::stats();
+         {
+            World w;
+            auto& lex = w.lex;
+            auto nm = [&](const char8_t* stem, int i) { return std::u8string(stem) + char8_t('a' + i % 26) + char8_t('a' + i / 26 % 26) + char8_t('a' + i / 676 % 26); };
+            auto* m = lex.make_mapping(*w.global, ipr::Mapping_level{ 0 });
+            auto* e = lex.make_enum(*w.global, ipr::Enum::Kind::Scoped);
+            auto* b = lex.make_block(*w.global);
+            auto* l = lex.make_expr_list();
+            auto* c = lex.make_class(*w.global);
+            const ipr::Type* tower = &lex.int_type();
+            for (int i = 0; i < n; ++i) {
+               auto& id = lex.get_identifier(nm(u8"s", i));
+               w.global->declare_var(id, lex.int_type());
+               w.global->declare_var(id, lex.int_type());                                  // a redeclaration of each
+               c->declare_field(lex.get_identifier(nm(u8"f", i)), lex.int_type());
+               tower = &lex.get_pointer(*tower);
+               ipr::impl::Warehouse<ipr::Type> wh;
+               wh.push_back(*tower); wh.push_back(lex.int_type());
+               (void) lex.get_product(wh); (void) lex.get_sum(wh);
+               (void) lex.get_literal(lex.int_type(), nm(u8"7", i));
+               (void) lex.get_qualified(lex.const_qualifier(), *tower);
+               m->param(lex.get_identifier(nm(u8"p", i)), lex.int_type());
+               e->add_member(lex.get_identifier(nm(u8"e", i)));
+               b->new_handler(lex.get_identifier(nm(u8"h", i)), lex.int_type());
+               l->push_back(&w.lit(i % 2));
+               w.global->make_subregion();
+               rep.count("transitions", 14);
+            }
+         }
+         const auto after = vf::env::stats();
+         vf::env::track_pointers(false);
+         rep.count("states");
+         rep.count("traces");
+         const long long blocks = after.live_blocks - before.live_blocks, bytes = after.live_bytes - before.live_bytes, bad = after.bad_deletes - before.bad_deletes;
+         if (blocks != 0 or bytes != 0 or bad != 0)
+            rep.violation("C19:leak:size-sweep", n, "a Lexicon holding exactly " + std::to_string(n) + " members of every kind leaves " + std::to_string(blocks) + " blocks / " + std::to_string(bytes)
+                          + " bytes allocated after destruction (" + std::to_string(bad) + " unmatched deletes)", vf::JObj{}.str("pass", "C19").raw("ops", "[]").num("size_sweep", n).done());
+      }
+      current_history.clear();
+   }
+}
+
 int main(int argc, char** argv)
 {
    opt = vf::parse_options(argc, argv);
@@ -464,7 +518,9 @@ int main(int argc, char** argv)
    // first stream, emergency pools) is not charged to the first history that happens to trigger it
    { World w; for (int a = 0; a < NOPS; ++a) { try { ops[a].run(w); } catch (const std::exception& e) { std::fprintf(stderr, "HARNESS-ERROR: operation %s throws: %s\n", ops[a].name, e.what()); return 2; } } }
    if (verbose) {
-      auto o = vf::json_int_array(vf::slurp(opt.replay), "ops");
+      const auto rtext = vf::slurp(opt.replay);
+      if (vf::json_int(rtext, "size_sweep") > 0) { const int n = int(vf::json_int(rtext, "size_sweep")); std::printf("replay C19: size sweep at %d\n", n); opt.shards = 1; opt.shard = 0; size_sweep(n); for (auto& [k, v] : rep.viols) std::printf("violated: %s  (%s)\n", k.c_str(), v.what.c_str()); return rep.viols.empty() ? 0 : 1; }
+      auto o = vf::json_int_array(rtext, "ops");
       std::vector<int> h(o.begin(), o.end());
       std::printf("replay C19: history [%s]\n", hist_name(h).c_str());
       for (int a : h) if (a < 0 or a >= NOPS) { std::printf("bad op index\n"); return 2; }
@@ -480,6 +536,7 @@ int main(int argc, char** argv)
    enumerate(depth);
    for (int s = 0; s < NOPS; ++s)
       if (opt.mine(s)) overlapped_chain(s);
+   size_sweep(opt.thorough() ? 600 : 150);
    if (opt.shard == 0) {
       std::vector<std::string> names;
       for (auto& o : ops) names.push_back(o.name);
